@@ -20,7 +20,8 @@ META = dict(
                "sample = L xi; L L^T vs dense NumPy covariance built from the generator's ingredients"),
     rule=("case = generated operator tree over domains of <= 8 pixels: ScalingOperator (positive / zero / "
           "negative / complex factor), DiagonalOperator (positive / semi-definite / indefinite / complex, "
-          "partial spaces, every _trafo via .inverse/.adjoint), SandwichOperator (dense rectangular, "
+          "partial spaces, every _trafo via .inverse/.adjoint views — also of semi-definite diagonals, alone "
+          "and as cheese / block of Sandwich / BlockDiagonal operators), SandwichOperator (dense rectangular, "
           "invertible dense, diagonal, Hartley, chained and scaling buns; real and complex), "
           "BlockDiagonalOperator, SumOperator (incl. negated summands), SamplingEnabler (both "
           "start_from_zero, with/without approximation), InversionEnabler, OperatorAdapter inverses / "
@@ -33,12 +34,17 @@ META = dict(
                  "non-covariances and tolerated for valid covariances outside the kinds the statement "
                  "enumerates (e.g. complex-typed diagonal with real positive entries); for the enumerated "
                  "kinds built from positive real ingredients a refusal is a violation",
+                 "the oracle keeps the matrix of the operator and of its inverse separately (either may not "
+                 "exist): a draw whose covariance needs the inverse of a singular operator (exact zero on a "
+                 "diagonal) must raise and never return inf/nan; a singular but finite PSD covariance must be "
+                 "sampled (zero-variance pixels exactly 0)",
                  "CG-based draws (SamplingEnabler) use GradientNormController(tol_rel 1e-10) and are compared "
                  "to 1e-7; everything else to 1e-9 (norm-wise)",
                  "Monte-Carlo smoke run (unscripted RNG, 300 draws, exact chi-square acceptance region with "
                  "p = 2e-13 per pixel variance) only confirms that scripting does not change the draw path"],
     need=["covariance_comparisons", "zero_mean_checks", "linearity_checks", "refusals_expected",
-          "inverse_draws_compared", "complex_draws_compared", "cg_draws_compared", "mc_smoke_checks"],
+          "inverse_draws_compared", "complex_draws_compared", "cg_draws_compared", "mc_smoke_checks",
+          "refusals_singular_inverse", "semidef_inverse_view_draws_compared"],
     quick=dict(cases=1200, workers=6, budget_s=80),
     thorough=dict(cases=60000, workers=16, budget_s=600),
     design_ref="DESIGN.md §5 C13",
@@ -66,14 +72,53 @@ def init(ck):
         pass
 
 
-class Cov:
-    """generated operator + what the oracle knows about it"""
+def safe_inv(M):
+    """(inverse, unclear): inverse is None if M is None or singular (smallest singular value <= 1e-12 of the
+    largest); unclear=True if it is merely badly conditioned (< 1e-6)"""
+    if M is None:
+        return None, False
+    M = np.asarray(M, dtype=np.complex128)
+    if M.size == 0:
+        return M, False
+    sv = np.linalg.svd(M, compute_uv=False)
+    if not np.all(np.isfinite(sv)) or sv.min() <= 1e-12 * max(sv.max(), 1e-300):
+        return None, False
+    return np.linalg.inv(M), bool(sv.min() < 1e-6 * sv.max())
 
-    def __init__(self, op, Mc, cpx, dt_ok, must, desc, cg=False, dom=None):
-        self.op, self.Mc, self.cpx, self.dt_ok = op, np.asarray(Mc), np.asarray(cpx, dtype=bool), dt_ok
+
+class Cov:
+    """generated operator + what the oracle knows about it: ``Mc`` = matrix of the operator (None if it
+    does not exist as a finite matrix, e.g. the inverse view of a diagonal with an exact zero), ``Mi`` =
+    matrix of its inverse (None if the operator is singular)"""
+
+    def __init__(self, op, Mc, cpx, dt_ok, must, desc, cg=False, Mi="auto"):
+        self.op, self.cpx, self.dt_ok = op, np.asarray(cpx, dtype=bool), dt_ok
+        self.Mc = None if Mc is None else np.asarray(Mc)
+        self.unclear = False
+        if isinstance(Mi, str):
+            Mi, self.unclear = safe_inv(self.Mc)
+        self.Mi = Mi
         self.must = dict(must)          # {from_inverse: bool}  sampling is demanded
         self.desc, self.cg = desc, cg
         self.flag = None                # special mechanism tag (e.g. negated summand)
+
+    @property
+    def n(self):
+        return len(self.cpx)
+
+    def view(self, how):
+        """apply .inverse / .adjoint views (how: 'inverse', 'adjoint', 'inverse.adjoint', ...)"""
+        op = self.op
+        for w in how.split("."):
+            op = getattr(op, w)
+            if w == "inverse":
+                self.Mc, self.Mi = self.Mi, self.Mc
+                self.must = {False: self.must[True], True: self.must[False]}
+            else:
+                self.Mc = None if self.Mc is None else self.Mc.conj().T
+                self.Mi = None if self.Mi is None else self.Mi.conj().T
+        self.op = op
+        return self
 
 
 # -------------------------------------------------------------------- domains ---
@@ -179,8 +224,17 @@ def leaf_diag(ift, rng, dom, dt=None, good=False):
     Mc = np.diag(full)
     okreal = k in ("pos", "semidef")
     must = {False: okreal and dtype is not None, True: k == "pos" and dtype is not None}
-    return Cov(op, Mc, np.full(dom.size, dn == "c"), dtype is not None, must,
-               dict(t="diag", d=k, dt=dn, partial=spaces is not None))
+    c = Cov(op, Mc, np.full(dom.size, dn == "c"), dtype is not None, must,
+            dict(t="diag", d=k, dt=dn, partial=spaces is not None))
+    # views of the same diagonal (DiagonalOperator keeps them as _trafo); for a semi-definite diagonal the
+    # inverse view has no finite matrix, but its *inverse* draw is the perfectly valid diagonal itself
+    vw = str(rng.choice(["none", "none", "none", "inverse", "adjoint.inverse", "adjoint", "inverse.inverse"]))
+    if k == "semidef" and rng.integers(0, 2):
+        vw = str(rng.choice(["inverse", "adjoint.inverse", "inverse.adjoint"]))
+    if vw != "none":
+        c.view(vw)
+        c.desc["view"] = vw
+    return c
 
 
 def leaf(ift, rng, dom, dt=None, good=False):
@@ -275,10 +329,18 @@ def gen_sandwich(ck, ift, rng, dom=None, dt=None, good=False):
             cdt = None
         ch = leaf(ift, rng, tgt, dt=cdt, good=good)
         op = ift.SandwichOperator.make(bun, ch.op)
-    Mc = B.conj().T @ ch.Mc @ B
+    Mc = None if ch.Mc is None else B.conj().T @ ch.Mc @ B
+    Mi = "auto"
+    if Mc is None:
+        # cheese without a finite matrix (inverse view of a semi-definite diagonal): the sandwich is only
+        # defined through its inverse  B^-1 C^-1 B^-H  (square invertible bun)
+        Mi = None
+        if ch.Mi is not None and B.shape[0] == B.shape[1]:
+            Bi, _ = safe_inv(B)
+            Mi = None if Bi is None else Bi @ ch.Mi @ Bi.conj().T
     cpx = np.full(dom.size, bool(ch.cpx.any()))
     must = {False: ch.must[False], True: ch.must[True] and inv}
-    c = Cov(op, Mc, cpx, ch.dt_ok, must, dict(t="sandwich", cheese=ch.desc, **bd))
+    c = Cov(op, Mc, cpx, ch.dt_ok, must, dict(t="sandwich", cheese=ch.desc, **bd), Mi=Mi)
     return c
 
 
@@ -291,6 +353,8 @@ def gen_block(ck, ift, rng):
     md = ift.MultiDomain.make(doms)
     n = sum(md[k].size for k in md.keys())
     Mc = np.zeros((n, n), dtype=np.complex128)
+    Mi = np.zeros((n, n), dtype=np.complex128)
+    unclear = False
     cpx = np.zeros(n, dtype=bool)
     o = 0
     descs = []
@@ -303,7 +367,15 @@ def gen_block(ck, ift, rng):
         else:
             c = leaf(ift, rng, md[k], good=bool(rng.integers(0, 4)))
         s = md[k].size
-        Mc[o:o + s, o:o + s] = c.Mc
+        if Mc is not None and c.Mc is not None:
+            Mc[o:o + s, o:o + s] = c.Mc
+        else:
+            Mc = None
+        if Mi is not None and c.Mi is not None:
+            Mi[o:o + s, o:o + s] = c.Mi
+        else:
+            Mi = None
+        unclear = unclear or c.unclear
         cpx[o:o + s] = c.cpx
         o += s
         ops[k] = c.op
@@ -312,7 +384,9 @@ def gen_block(ck, ift, rng):
         for fi in (False, True):
             must[fi] = must[fi] and c.must[fi]
     op = ift.BlockDiagonalOperator(md, ops)
-    return Cov(op, Mc, cpx, dt_ok, must, dict(t="block", parts=descs))
+    cov = Cov(op, Mc, cpx, dt_ok, must, dict(t="block", parts=descs), Mi=Mi)
+    cov.unclear = unclear
+    return cov
 
 
 def gen_sum(ck, ift, rng):
@@ -393,20 +467,11 @@ def gen_cov(ck, ift, rng):
         c.desc = dict(t="inversion_enabler", inner=c.desc)
     if rng.integers(0, 3) == 0:
         which = str(rng.choice(["inverse", "adjoint", "inverse.adjoint", "inverse.inverse"]))
-        H = 0.5 * (c.Mc + c.Mc.conj().T)
-        ev = np.linalg.eigvalsh(H) if H.size else np.zeros(0)
-        sing = ev.size and np.min(np.abs(ev)) <= 1e-8 * max(np.max(np.abs(ev)), 1e-300)
-        if "inverse" in which and sing:
-            which = "adjoint"
-        op = c.op
-        for w in which.split("."):
-            op = getattr(op, w)
-        c.op = op
-        if which in ("inverse", "inverse.adjoint"):
-            c.Mc = np.linalg.inv(c.Mc)
-            c.must = {False: c.must[True], True: c.must[False]}
-        c.Mc = c.Mc if which != "adjoint" and which != "inverse.adjoint" else c.Mc.conj().T
-        c.desc = dict(t="adapter", how=which, inner=c.desc, cls=type(op).__name__)
+        inner = c.desc
+        if "inverse" in which and inner.get("t") == "scaling" and inner.get("f") == "zero":
+            which = "adjoint"        # ScalingOperator(0).inverse cannot even be constructed (1/0)
+        c.view(which)
+        c.desc = dict(t="adapter", how=which, inner=inner, cls=type(c.op).__name__)
     return c
 
 
@@ -428,9 +493,13 @@ def expected_cov(Mc, cpx):
     return C
 
 
-def validity(Mc, cpx, inverse):
-    """'valid' (a covariance), 'invalid' (must refuse) or 'unclear'"""
+def validity(Mc, cpx):
+    """'valid' (a finite Hermitian PSD covariance compatible with the sampling dtypes) or 'invalid'"""
+    if Mc is None:
+        return "invalid"           # the requested covariance needs the inverse of a singular operator
     Mc = np.asarray(Mc, dtype=np.complex128)
+    if not np.all(np.isfinite(Mc)):
+        return "invalid"
     sc = max(np.max(np.abs(Mc), initial=0.0), 1e-300)
     if np.max(np.abs(Mc - Mc.conj().T), initial=0.0) > 1e-9 * sc:
         return "invalid"
@@ -438,16 +507,26 @@ def validity(Mc, cpx, inverse):
     if np.max(np.abs(Mc.imag[np.ix_(~cpx, ~cpx)]), initial=0.0) > 1e-9 * sc:
         return "invalid"
     ev = np.linalg.eigvalsh(0.5 * (Mc + Mc.conj().T))
-    if ev.size == 0:
-        return "valid"
-    if np.min(ev) < -1e-9 * sc:
+    if ev.size and np.min(ev) < -1e-9 * sc:
         return "invalid"
-    if inverse:
-        if np.min(ev) <= 1e-12 * sc:
-            return "invalid"
-        if np.min(ev) < 1e-6 * sc:
-            return "unclear"
     return "valid"
+
+
+def has_semidef_inverse_view(desc):
+    """does the operator tree contain a semi-definite diagonal seen through an inverse view?"""
+    if isinstance(desc, dict):
+        if desc.get("t") == "diag" and desc.get("d") == "semidef" and \
+                str(desc.get("view", "")).split(".").count("inverse") % 2 == 1:
+            return True
+        if desc.get("t") == "adapter" and desc.get("how", "").split(".").count("inverse") % 2 == 1 and \
+                isinstance(desc.get("inner"), dict) and desc["inner"].get("t") == "diag" and \
+                desc["inner"].get("d") == "semidef" and \
+                str(desc["inner"].get("view", "")).split(".").count("inverse") % 2 == 0:
+            return True
+        return any(has_semidef_inverse_view(v) for v in desc.values())
+    if isinstance(desc, (list, tuple)):
+        return any(has_semidef_inverse_view(v) for v in desc)
+    return False
 
 
 def short(desc):
@@ -468,14 +547,16 @@ def case(ck, i):
     desc = dict(op=c.desc, from_inverse=from_inverse)
     kl = short(c.desc) + (":inv" if from_inverse else ":fwd")
     op = c.op
-    n = c.Mc.shape[0]
+    n = c.n
 
-    Meff = c.Mc
-    val = validity(c.Mc, c.cpx, from_inverse)
+    # effective covariance of this draw: the operator, or its inverse; None = does not exist (needs the
+    # inverse of a singular operator, e.g. of a zero on a diagonal) -> the draw must be refused
+    Meff = c.Mi if from_inverse else c.Mc
+    val = validity(Meff, c.cpx)
     if not c.dt_ok:
         val = "invalid"
-    if val == "valid" and from_inverse:
-        Meff = np.linalg.inv(c.Mc)
+    elif Meff is not None and c.unclear:
+        val = "unclear"
     mech = short(c.desc)
 
     def draw():
@@ -491,6 +572,8 @@ def case(ck, i):
         ck.hit("refusals_seen")
         if val == "invalid":
             ck.hit("refusals_expected")
+            if c.dt_ok and Meff is None:
+                ck.hit("refusals_singular_inverse")
         elif val == "valid" and c.must[from_inverse]:
             ck.violation(f"unexpected-refusal:{mech}:{'inverse' if from_inverse else 'forward'}",
                          f"draw_sample(from_inverse={from_inverse}) raised {type(refused).__name__} for a "
@@ -499,8 +582,16 @@ def case(ck, i):
             ck.hit("refusals_tolerated")
         ck.note(desc, nontrivial=False, klass=kl + ":refused")
         return
+    if not np.all(np.isfinite(cs.fvec(s0).astype(np.complex128))):
+        ck.hit("nonfinite_samples")
+        ck.violation(f"nonfinite-sample:{mech}:{'inverse' if from_inverse else 'forward'}",
+                     f"draw_sample(from_inverse={from_inverse}) returned inf/nan instead of refusing")
+        ck.note(desc, nontrivial=False, klass=kl + ":nonfinite")
+        return
     if val == "invalid":
-        why = "no sampling dtype" if not c.dt_ok else "not a Hermitian positive (semi-)definite covariance"
+        why = ("no sampling dtype" if not c.dt_ok else
+               "the requested covariance needs the inverse of a singular operator" if Meff is None else
+               "not a Hermitian positive (semi-)definite covariance")
         key = f"sample-from-non-covariance:{mech}:{'inverse' if from_inverse else 'forward'}"
         if c.flag:
             key = "wrong-covariance:sum:" + c.flag
@@ -563,6 +654,8 @@ def case(ck, i):
     if c.cg and from_inverse:
         ck.hit("cg_draws_compared")
     ck.hit("compared:" + short(c.desc))
+    if has_semidef_inverse_view(c.desc):
+        ck.hit("semidef_inverse_view_draws_compared")
     if not (dev <= tol):
         key = f"wrong-covariance:{mech}:{'inverse' if from_inverse else 'forward'}"
         if c.flag:
